@@ -321,6 +321,12 @@ class BaseObserver(EventDispatcher):
         with self._lock:
             watch = ObservedWatch(path, recursive=recursive, event_filter=event_filter, follow_symlink=follow_symlink)
 
+            # An emitter that has ended by itself (its watched path was deleted) reports
+            # nothing any more: a fresh one takes its place.
+            emitter = self._emitter_for_watch.get(watch)
+            if emitter is not None and emitter.ident is not None and not emitter.is_alive() and self.should_keep_running():
+                self._remove_emitter(emitter)
+
             # If we don't have an emitter for this watch already, create it.
             if watch not in self._emitter_for_watch:
                 emitter = self._emitter_class(self.event_queue, watch, timeout=self.timeout, event_filter=event_filter)
